@@ -288,6 +288,9 @@ def cases_for(tier, s):
     for cell in ("triangle", "tetrahedron", "hexahedron"):
         for side in ("-", "mix"):
             R.append({"recipe": {"b": "geom_all", "cell": cell, "p": {"itype": "interior_facet", "side": side}}})
+    # rank-3 tensor shapes with unequal extents: every flat component index of c, w and A
+    for shape, cell, it in (((2, 3, 2), "triangle", "cell"), ((3, 2, 1), "interval", "cell"), ((2, 3, 2), "triangle", "interior_facet"), ((1, 3, 2), "tetrahedron", "exterior_facet")):
+        R.append({"recipe": {"b": "tensor3", "cell": cell, "p": {"shape": list(shape), "itype": it}}})
     # options that change the loop structure
     for cell in ("quadrilateral", "hexahedron"):
         R.append({"recipe": {"b": "tp_mass_stiff", "cell": cell, "tpmesh": True, "p": {"degree": 2 if cell == "quadrilateral" else 1}}, "options": {"sum_factorization": True}})
